@@ -744,6 +744,11 @@ impl StorageEngine {
 
     /// Add a member with score to a sorted set - NO access time tracking
     pub fn zadd(&self, db: DatabaseIndex, key: Key, member: Vec<u8>, score: f64) -> Result<bool> {
+        // A score that is not a number has no place in the order
+        if score.is_nan() {
+            return Err(FerrousError::Command(CommandError::InvalidFloatValue));
+        }
+        
         let shard = self.get_shard(db, &key)?;
         let mut shard_guard = shard.write().unwrap();
         
@@ -942,6 +947,10 @@ impl StorageEngine {
     }
     
     pub fn zincrby(&self, db: DatabaseIndex, key: Key, member: Vec<u8>, increment: f64) -> Result<f64> {
+        if increment.is_nan() {
+            return Err(FerrousError::Command(CommandError::InvalidFloatValue));
+        }
+        
         let shard = self.get_shard(db, &key)?;
         let mut shard_guard = shard.write().unwrap();
         
@@ -952,6 +961,13 @@ impl StorageEngine {
                         Some(curr_score) => curr_score + increment,
                         None => increment,
                     };
+                    
+                    // inf + -inf: the increment would produce NaN
+                    if new_score.is_nan() {
+                        return Err(FerrousError::Command(CommandError::Generic(
+                            "resulting score is not a number (NaN)".to_string()
+                        )));
+                    }
                     
                     skiplist.insert(member, new_score);
                     shard_guard.mark_modified(&key);
